@@ -369,6 +369,13 @@ def _entries():
         calc_total_error(d, bk, gain)
     E['calc_total_error'] = (('ndarray', 'view', 'quantity'), e_toterr)
 
+    def e_selftest(i):
+        # deliberately modifies its input: self-test of the snapshot machinery
+        d = i['data']
+        np.asarray(getattr(d, 'value', d))[3, 4] += 1.0
+    E['__selftest__'] = (('ndarray', 'view', 'masked', 'quantity'),
+                         e_selftest)
+
     def e_ellipse(i):
         geo = EllipseGeometry(30.0, 12.0, 4.0, 0.1, 0.3)
         d = i['data']
@@ -570,7 +577,8 @@ def run_case(case):
 def cases(tier, seed):
     cs = []
     for e in _entries():
-        cs.append(dict(kind='entry', name=f'entry-{e}', entry=e))
+        cs.append(dict(kind='entry', name=f'entry-{e}', entry=e,
+                       twin=(e == '__selftest__')))
     for mod, pick in [('c02', 'stub-2x2-box2x2-upto1'), ('c04', '2x2-c8'),
                       ('c17', 'com-2x3'), ('c19', 'rp-4x4-mid'),
                       ('c16', 'circ-in-exact'), ('c07', 'touching-mask1'),
